@@ -1,6 +1,7 @@
 import SgModel.Lemmas.SnapImport
 import SgModel.Lemmas.SnapIso
 import SgModel.Lemmas.SnapRollback
+import SgModel.Lemmas.SnapJsonUndoStep
 /-!
 # C13 — a failed snapshot import leaves the store unchanged
 
@@ -18,15 +19,25 @@ Full statement of the property on the model (kept visible; only parts of it are 
       | (st', some _) => some st' = mergeSpec ks hdr st lines
       | (st', none)   => logical st' = logical st ∧ lidxOk st'
 
-Proved below: the success half in full (`C13_success_is_merge_spec`), and the failure half
-**for imports without dedup keys** (`C13_failed_import_without_dedup_restores_partial`: for
-every store and every line sequence the rollback gives back the original logical graph).
-With dedup keys the failure half (the undo journal of the merge path) is established
-differentially — the executable specification `specImport` is evaluated on the real store
-for every explored truncation / corruption — and on the concrete witnesses below.  What is
-missing for the general case: an invariant relating the undo journal to the original store
-through the label index up to reordering (`lidxRemove ∘ lidxInsert` is the identity only
-extensionally), and the label-index half (`lidxOk`) of the failure case.
+Proved below: the success half in full (`C13_success_is_merge_spec`), and the **logical-graph
+clause of the failure half in full generality** — any dedup keys, any header labels, any
+store satisfying `StoreWF2`, any line sequence
+(`C13_failed_import_restores_store_partial`, `C13_failed_import_restores_logical_graph_partial`;
+helpers `Lemmas/SnapJsonUndo.lean`, `Lemmas/SnapJsonUndoStep.lean`): the undo journal of the
+merge path undoes every merge it recorded, relationships between merged nodes are taken back,
+and deleting the created nodes removes the rest, so the node list (labels, row and column maps
+— not only the merged view), the relationship list and the hierarchy declarations are
+*exactly* what they were.  `C13_failed_import_without_dedup_restores_partial` is the earlier
+special case without dedup keys, kept for its weaker well-formedness assumption.
+
+What remains unproved (hence `_partial`): the label-index clause `lidxOk st'` of the failure
+case.  After a rollback the index equals the original one only up to the order of its entries
+(`lidxRemove ∘ lidxInsert` is the identity only extensionally: an entry that was emptied and
+re-created moves to the end), so it needs an extensional invariant on `lookup l st.lidx` as a
+set rather than the list equality used for nodes and relationships.  That clause stays
+established differentially (the executable specification `specImport`, which includes
+`lidxOk`, is evaluated on the real store for every explored truncation / corruption) and on
+the concrete witnesses below.
 -/
 namespace SgModel.SnapJson
 
@@ -57,6 +68,40 @@ theorem C13_failed_import_without_dedup_restores_partial (hdr : List Str) (st : 
     cases ok with
     | true => exact absurd hfail (by intro h; cases h)
     | false => exact rollback_no_dedup hwf hinv
+
+/-- **Failure half, any dedup keys — the store itself**: for every store satisfying
+`StoreWF2` (distinct node ids below the node counter, relationship ids below the relationship
+counter, relationships between existing nodes), every list of dedup keys and header labels and
+**every** line sequence: if the import fails, the node list (ids, labels, row maps, column
+maps), the relationship list and the hierarchy declarations of the store it leaves are
+*equal* to those before — every property, label and relationship the merge path added to a
+pre-existing node has been taken back, and every created node is gone.
+`_partial`: the label-index clause is not covered (see the header). -/
+theorem C13_failed_import_restores_store_partial (ks hdr : List Str) (st : St) (lines : List Line)
+    (hwf : StoreWF2 st) (hfail : (importLines false true ks hdr st lines).2 = none) :
+    (importLines false true ks hdr st lines).1.nodes = st.nodes
+    ∧ (importLines false true ks hdr st lines).1.edges = st.edges
+    ∧ (importLines false true ks hdr st lines).1.hier = st.hier :=
+  failed_import_restores ks hdr st lines hwf hfail
+
+/-- … hence the same logical graph (the statement of the property's failure half, minus the
+label-index clause): nodes in order with labels and merged properties, relationships by
+endpoint rank with type and properties, hierarchy declarations. -/
+theorem C13_failed_import_restores_logical_graph_partial (ks hdr : List Str) (st : St)
+    (lines : List Line) (hwf : StoreWF2 st)
+    (hfail : (importLines false true ks hdr st lines).2 = none) :
+    logical (importLines false true ks hdr st lines).1 = logical st := by
+  obtain ⟨a, b, c⟩ := failed_import_restores ks hdr st lines hwf hfail
+  unfold logical nodeIds
+  rw [a, b, c]
+
+/-- The journal entries a merge pushes are exactly the inverse of what it changed: undoing
+them (newest first) on the node list after the merge gives the node list before it
+(`Undoes`); stated for the property fold of one merged record. -/
+theorem C13_merge_journal_undoes_merge (eid : Nat) (pvs : List (Str × PV)) (st : St)
+    (j : List Undo) (hnd : (nodeIds st).Nodup) :
+    Undoes st j (pvs.foldl (mergeProp true eid) (st, j)).1 (pvs.foldl (mergeProp true eid) (st, j)).2 :=
+  undoes_foldl_mergeProp eid pvs st j hnd
 
 /-- The import fails exactly when some line cannot be applied (unreadable line, ill-typed
 record, relationship to an unknown node id); what is returned then is the rolled-back store. -/
